@@ -785,3 +785,81 @@ def followed_by(trace, a_pred, b_pred) -> bool:
         if a_pred(e) and index_of(trace, b_pred, i + 1) < 0:
             return False
     return True
+
+
+# ---------------------------------------------------------------------------------------------------
+# a generic labeller good enough for most ordering / pairing rules
+
+
+class GenericSpec(Spec):
+    """Events:
+      ('call', 'dotted.callee')     every call, in evaluation order (callee text as written)
+      ('yield', 'ClassName')        yield ClassName(...) ; ('yield_from', 'dotted.callee') for yield from f(...)
+      ('await', 'dotted.callee')    await f(...)
+      ('assign', 'a.b.c')           assignment / augmented assignment to a name or attribute chain
+      ('del', 'a.b.c') ('return',) ('raise', 'Cls')
+    ``keep(event) -> bool`` projects onto the rule's alphabet (default: keep everything).
+    ``inline_methods``: names of same-class methods / module functions to inline (resolved by ``resolver``).
+    """
+
+    def __init__(self, keep=None, resolver=None, record_conds=False, unroll=1, tracked=()):
+        self._keep = keep
+        self._resolver = resolver
+        self.record_conds = record_conds
+        self.unroll = unroll
+        self.tracked = tuple(tracked)
+
+    def events(self, node, st):
+        out = []
+        for n in eval_order(node):
+            ev = None
+            if isinstance(n, ast.Call):
+                try:
+                    ev = ("call", ast.unparse(n.func))
+                except Exception:
+                    ev = ("call", "?")
+            elif isinstance(n, ast.Yield):
+                ev = ("yield", last_attr(n.value.func) if isinstance(n.value, ast.Call) else (ast.unparse(n.value) if n.value is not None else ""))
+            elif isinstance(n, ast.YieldFrom):
+                ev = ("yield_from", ast.unparse(n.value.func) if isinstance(n.value, ast.Call) else ast.unparse(n.value))
+            elif isinstance(n, ast.Await):
+                ev = ("await", ast.unparse(n.value.func) if isinstance(n.value, ast.Call) else ast.unparse(n.value))
+            if ev is not None and (self._keep is None or self._keep(ev)):
+                out.append(ev)
+        extra = []
+        if isinstance(node, ast.Assign):
+            for t in node.targets:
+                for tt in t.elts if isinstance(t, (ast.Tuple, ast.List)) else [t]:
+                    extra.append(("assign", ast.unparse(tt)))
+        elif isinstance(node, (ast.AugAssign, ast.AnnAssign)):
+            extra.append(("assign", ast.unparse(node.target)))
+        elif isinstance(node, ast.Delete):
+            for t in node.targets:
+                extra.append(("del", ast.unparse(t)))
+        elif isinstance(node, ast.Return):
+            extra.append(("return",))
+        elif isinstance(node, ast.Raise):
+            extra.append(("raise", last_attr(node.exc) if node.exc is not None else ""))
+        for ev in extra:
+            if self._keep is None or self._keep(ev):
+                out.append(ev)
+        return out
+
+    def inline(self, call, st, depth):
+        if self._resolver is None:
+            return None
+        return self._resolver(call)
+
+
+def traces_of(fn, spec: Spec | None = None, bindings: dict | None = None, init_env: dict | None = None):
+    """All terminal (trace, how) pairs of ``fn``: how = 'return' | 'raise:<Cls>'. Returns (list, Engine)."""
+    spec = spec or GenericSpec()
+    eng = Engine(spec)
+    o = eng.run(fn, State((), dict(init_env or {})), bindings)
+    out = []
+    for s in o.ret:
+        out.append((s.trace, "return", s))
+    for s in o.exc:
+        e = s.get("$exc")
+        out.append((s.trace, "raise:" + (e[1] if is_const(e) else "?"), s))
+    return out, eng
